@@ -65,7 +65,7 @@ TermsFold(negs, e, r, role, g, i) ==
 RECURSIVE Groups(_,_,_,_,_)
 Groups(gs, e, r, s, g) ==
   IF g > Len(gs) THEN <<>>
-  ELSE Opt(s) \o <<P("L_ANGLE")>> \o In(s) \o (IF s = 5 THEN TermsNL(gs[g], e, r, "prof", g, 1) ELSE Terms(gs[g], e, r, "prof", g, 1)) \o In(s) \o <<P("R_ANGLE")>>
+  ELSE (IF s = 8 /\ g > 1 THEN <<NLt, W>> ELSE Opt(s)) \o <<P("L_ANGLE")>> \o In(s) \o (IF s = 5 THEN TermsNL(gs[g], e, r, "prof", g, 1) ELSE Terms(gs[g], e, r, "prof", g, 1)) \o In(s) \o <<P("R_ANGLE")>>
        \o Groups(gs, e, r, s, g + 1)
 
 \* v = [aq, op (0 none), epoch, archs (<<>> none | <<neg..>>), hasArch, profs (seq of seq of neg)]
@@ -169,7 +169,7 @@ Positions(TT, i, p) == IF i > Len(TT) THEN <<>> ELSE << <<TT[i].k, p, 1>> >> \o 
 MkCase(TT, items, allow) ==
   [toks |-> Positions(TT, 1, 1), allow |-> allow, exp |-> Expected(TT, items), canon |-> CanonOf(Expected(TT, items)),
    roles |-> [i \in 1..Len(TT) |-> <<TT[i].role, TT[i].e, TT[i].r, TT[i].g>>],
-   hasSv |-> \E e \in 1..Len(items) : items[e].k = "S", dup |-> FALSE, nlin |-> FALSE]
+   hasSv |-> \E e \in 1..Len(items) : items[e].k = "S", dup |-> FALSE, dupe |-> FALSE, nlin |-> FALSE]
 
 E1(v) == [k |-> "E", vs |-> <<v>>]
 E2(v, w) == [k |-> "E", vs |-> <<v, w>>]
@@ -206,6 +206,13 @@ MCInit ==
        InitWith([MkCase(Field(<<E1(v)>>, 5, DefC, DefP, <<>>, FALSE, <<>>), <<E1(v)>>, FALSE) EXCEPT !.nlin = TRUE])
   \/ \E v \in { x \in GoodV : x.hasArch } :
        InitWith([MkCase(Field(<<E1(v), E1(Simple)>>, 7, DefC, DefP, <<>>, FALSE, <<>>), <<E1(v), E1(Simple)>>, FALSE) EXCEPT !.nlin = TRUE])
+  \* layout 8: a folded line between two profile groups
+  \/ \E v \in { x \in GoodV : Len(x.profs) >= 2 } :
+       InitWith([MkCase(Field(<<E1(v), E1(Simple)>>, 8, DefC, DefP, <<>>, FALSE, <<>>), <<E1(v), E1(Simple)>>, FALSE) EXCEPT !.nlin = TRUE])
+  \* the same ENTRY twice (dupe: the harness gives entries 1 and 3 the same texts) - both stay, the multiset counts
+  \/ \E v \in { Simple, RV(TRUE, 0, FALSE, FALSE, <<>>, <<>>), RV(FALSE, 4, FALSE, FALSE, <<>>, <<>>) }, w \in FewV, cs \in CommaStyles :
+       LET items == <<E1(v), E1(w), E1(v)>> IN
+       InitWith([MkCase(Field(items, 1, cs, DefP, <<>>, FALSE, <<>>), items, FALSE) EXCEPT !.dup = TRUE, !.dupe = TRUE])
   \* alternatives and several entries, each separator layout
   \/ \E v \in FewV, w \in FewV, cs \in CommaStyles, ps \in PipeStyles, tc \in BOOLEAN :
        LET items == <<E2(v, w), E1(w)>> IN
@@ -246,5 +253,5 @@ FieldAccepted == Done => nerr = 0 /\ Structure = case.exp
 
 Emit == Done => PrintT(<<"REPLAY", ToJson([
            t |-> [k \in 1..Len(toks) |-> toks[k][1]], a |-> case.allow, x |-> case.exp, cn |-> case.canon, r |-> case.roles,
-           sv |-> case.hasSv, dup |-> case.dup, nlin |-> case.nlin, e |-> nerr, o |-> out ])>>)
+           sv |-> case.hasSv, dup |-> case.dup, dupe |-> case.dupe, nlin |-> case.nlin, e |-> nerr, o |-> out ])>>)
 =============================================================================
